@@ -366,6 +366,16 @@ def shrink(case, vrec, max_execs=600):
             n = min(n * 2, len(ops))
         if execs[0] >= max_execs:
             break
+    # argument simplification: an enumerating op is narrowed to the one fault point / corruption that failed
+    last = run_case({"machine": case["machine"], "cfg": case["cfg"], "ops": ops})["violation"]
+    if last is not None and last.get("step") is not None and last["step"] < len(ops):
+        det = last.get("detail") or {}
+        for key in ("ks", "only"):
+            if key in det and isinstance(det[key], list):
+                cand = [dict(o) for o in ops]
+                cand[last["step"]][key] = det[key]
+                if fails(cand):
+                    ops = cand
     cfg = dict(case["cfg"])
     # simplify configuration: identity set order, sorted listdir
     for key, simple in (("simset", "insertion"), ("listdir", "sorted")):
